@@ -475,6 +475,58 @@ func c12(c *Ctx) {
 			if rt, ok := in.(*ssa.Return); ok {
 				cs := strings.Join(condStrings(rt.Block()), " && ")
 				ok := strings.Contains(cs, "select#0==0)=true") || strings.Contains(cs, "Limiter).Wait") || strings.Contains(cs, "#0==0)=true")
+				if !ok {
+					// "ok = false" carried out of a batching helper written in place: the flag is false only where the
+					// Done() case of a select was taken
+					isDoneCase := func(cd Cond) bool {
+						cd = normCond(cd)
+						b := asBinOp(cd.V, token.EQL)
+						if b == nil || !cd.Sense {
+							return false
+						}
+						ex, isEx := b.X.(*ssa.Extract)
+						k, isC := constInt(b.Y)
+						if !isEx || !isC || ex.Index != 0 {
+							return false
+						}
+						sel, isSel := ex.Tuple.(*ssa.Select)
+						if !isSel || int(k) >= len(sel.States) {
+							return false
+						}
+						dc, isCall := sel.States[k].Chan.(*ssa.Call)
+						return isCall && dc.Call.IsInvoke() && dc.Call.Method.Name() == "Done"
+					}
+					for _, f := range factsAt(rt.Block()) {
+						ph, isPhi := f.V.(*ssa.Phi)
+						if f.Op != token.ILLEGAL || !isPhi || !isBoolType(ph.Type()) {
+							continue
+						}
+						all, any := true, false
+						for _, vc := range valueCases(ph, nil) {
+							k, isC := vc.V.(*ssa.Const)
+							if !isC || k.Value == nil {
+								all = false
+								continue
+							}
+							if (k.Value.ExactString() == "true") != f.True {
+								continue
+							}
+							any = true
+							done := false
+							for _, cd := range vc.Conds {
+								if isDoneCase(cd) {
+									done = true
+								}
+							}
+							if !done {
+								all = false
+							}
+						}
+						if all && any {
+							ok = true
+						}
+					}
+				}
 				r.Check("run:stops-only-on-cancel", ok, rt.Pos(), "return under: "+cs)
 			}
 		})
